@@ -48,9 +48,16 @@ pub enum Tmpl {
     /// (seeded powers, often equal), postfix '!'; inputs nest through *alternating* operators
     /// (prefix/prefix, left/right infix at one power), runs of one operator, and random mixes
     PrattMix,
+    /// three mutually recursive declared parsers, defined in a seeded order, some through a clone of
+    /// the declared handle:  A = '(' B ')' | 'a' ;  B = '[' C ']' | 'b' ;  C = '{' A '}' | '<' B '>' | 'c'
+    Triple,
+    /// a recursive parser created inside the definition of another one and referring to it:
+    /// P = '(' Q ')' | 'x' ;  Q = '[' Q ']' | '<' P '>' | 'y'   (recursive() inside recursive(),
+    /// recursive() inside declare/define, and the other way round)
+    Nested,
 }
 
-pub const TEMPLATES: [Tmpl; 8] = [Tmpl::Paren, Tmpl::List, Tmpl::Chain, Tmpl::Mutual, Tmpl::PrattGroup, Tmpl::Brackets, Tmpl::PrattChain, Tmpl::PrattMix];
+pub const TEMPLATES: [Tmpl; 10] = [Tmpl::Paren, Tmpl::List, Tmpl::Chain, Tmpl::Mutual, Tmpl::PrattGroup, Tmpl::Brackets, Tmpl::PrattChain, Tmpl::PrattMix, Tmpl::Triple, Tmpl::Nested];
 
 #[derive(Clone, Copy, Debug, PartialEq, Eq, Hash, Serialize, Deserialize)]
 pub enum Form {
@@ -178,9 +185,30 @@ fn body<'a>(t: Tmpl, pads: &[u8], me: BX<'a>, other: Option<BX<'a>>, second: boo
             just(b'x').to((0, 0)),
         ))
         .boxed(),
-        Tmpl::PrattChain | Tmpl::PrattMix => unreachable!(),
+        Tmpl::PrattChain | Tmpl::PrattMix | Tmpl::Triple | Tmpl::Nested => unreachable!(),
     };
     pad(b, pads)
+}
+
+fn lvl<'a>(p: BX<'a>, o: u8, c: u8, dm: u64) -> BX<'a> {
+    p.delimited_by(just(o), just(c)).map(move |(d, m): O| (d + 1, m + dm)).boxed()
+}
+
+/// Triple: which = 0 (A, uses b), 1 (B, uses c), 2 (C, uses a and b)
+fn triple_body<'a>(which: u8, pads: &[u8], a: BX<'a>, b: BX<'a>, c: BX<'a>) -> BX<'a> {
+    let p: BX<'a> = match which {
+        0 => lvl(b, b'(', b')', 0).or(just(b'a').to((0, 0))).boxed(),
+        1 => lvl(c, b'[', b']', 0).or(just(b'b').to((0, 0))).boxed(),
+        _ => choice((lvl(a, b'{', b'}', 0), lvl(b, b'<', b'>', 1), just(b'c').to((0u64, 0u64)).boxed())).boxed(),
+    };
+    pad(p, pads)
+}
+
+fn nested_p<'a>(pads: &[u8], q: BX<'a>) -> BX<'a> {
+    pad(lvl(q, b'(', b')', 0).or(just(b'x').to((0, 0))).boxed(), pads)
+}
+fn nested_q<'a>(pads: &[u8], q: BX<'a>, p: BX<'a>) -> BX<'a> {
+    pad(choice((lvl(q, b'[', b']', 0), lvl(p, b'<', b'>', 1), just(b'y').to((0u64, 0u64)).boxed())).boxed(), pads)
 }
 
 fn pratt_mix<'a>(pads: &[u8]) -> BX<'a> {
@@ -214,6 +242,27 @@ fn unroll<'a>(t: Tmpl, pads: &[u8], k: usize) -> BX<'a> {
     match t {
         Tmpl::PrattChain => pratt_chain(pads),
         Tmpl::PrattMix => pratt_mix(pads),
+        Tmpl::Triple => {
+            let (mut a, mut b, mut c) = (never(), never(), never());
+            for _ in 0..k {
+                let na = triple_body(0, pads, never(), b.clone(), never());
+                let nb = triple_body(1, pads, never(), never(), c.clone());
+                let nc = triple_body(2, pads, a.clone(), b.clone(), never());
+                a = na;
+                b = nb;
+                c = nc;
+            }
+            a
+        }
+        Tmpl::Nested => {
+            let (mut p, mut q) = (never(), never());
+            for _ in 0..k {
+                let nq = nested_q(pads, q.clone(), p.clone());
+                p = nested_p(pads, nq.clone());
+                q = nq;
+            }
+            p
+        }
         Tmpl::Mutual => {
             let (mut a, mut b) = (never(), never());
             for _ in 0..k {
@@ -246,6 +295,8 @@ pub fn openers(t: Tmpl) -> &'static [u8] {
         Tmpl::PrattGroup => b"(",
         Tmpl::Brackets => b"([{",
         Tmpl::PrattChain | Tmpl::PrattMix => b"",
+        Tmpl::Triple => b"([{<",
+        Tmpl::Nested => b"([<",
     }
 }
 
@@ -384,6 +435,61 @@ pub fn gen_input(t: Tmpl, depth: usize, shape_seed: u64) -> (Vec<u8>, O, usize) 
             }
             let l = v.len();
             (v, (0, n as u64), l)
+        }
+        Tmpl::Triple => {
+            let (mut v, mut closers, mut st, mut m) = (Vec::with_capacity(2 * n + 1), Vec::with_capacity(n), 0u8, 0u64);
+            for _ in 0..n {
+                match st {
+                    0 => {
+                        v.push(b'(');
+                        closers.push(b')');
+                        st = 1;
+                    }
+                    1 => {
+                        v.push(b'[');
+                        closers.push(b']');
+                        st = 2;
+                    }
+                    _ => {
+                        if rng.chance(1, 2) {
+                            v.push(b'{');
+                            closers.push(b'}');
+                            st = 0;
+                        } else {
+                            v.push(b'<');
+                            closers.push(b'>');
+                            st = 1;
+                            m += 1;
+                        }
+                    }
+                }
+            }
+            v.push([b'a', b'b', b'c'][st as usize]);
+            let c0 = v.len();
+            v.extend(closers.iter().rev());
+            (v, (n as u64, m), c0)
+        }
+        Tmpl::Nested => {
+            let (mut v, mut closers, mut at_q, mut m) = (Vec::with_capacity(2 * n + 1), Vec::with_capacity(n), false, 0u64);
+            for _ in 0..n {
+                if !at_q {
+                    v.push(b'(');
+                    closers.push(b')');
+                    at_q = true;
+                } else if rng.chance(1, 2) {
+                    v.push(b'[');
+                    closers.push(b']');
+                } else {
+                    v.push(b'<');
+                    closers.push(b'>');
+                    at_q = false;
+                    m += 1;
+                }
+            }
+            v.push(if at_q { b'y' } else { b'x' });
+            let c0 = v.len();
+            v.extend(closers.iter().rev());
+            (v, (n as u64, m), c0)
         }
         Tmpl::PrattMix => {
             // n operators; every well-formed expression is consumed completely whatever the powers
@@ -569,6 +675,8 @@ pub struct History {
 fn run_history<'a>(c: &LifeCase, input: &'a [u8]) -> History {
     set_bp(c.shape_seed);
     let mut pool: Vec<H<'a>> = Vec::new();
+    // handles that are not entry points but stay alive until the history is over
+    let mut keep: Vec<H<'a>> = Vec::new();
     let mut premature = None;
     let mut refused = None;
     let early = |h: &RI<'a>| -> Option<Outcome> {
@@ -593,6 +701,74 @@ fn run_history<'a>(c: &LifeCase, input: &'a [u8]) -> History {
             }
             pool.push(H::Ind(a));
             // b stays alive through a's definition (Rc cycle), the local handle is dropped here
+        }
+        (Tmpl::Triple, _) => {
+            // definition order, which definitions go through a CLONE of the declared handle, and whether
+            // the handles of B and C outlive the history, all come from the shape seed
+            let s = crate::prng::mix64(c.shape_seed ^ 0x7219);
+            let orders: [[u8; 3]; 6] = [[0, 1, 2], [0, 2, 1], [1, 0, 2], [1, 2, 0], [2, 0, 1], [2, 1, 0]];
+            let order = orders[(s % 6) as usize];
+            let mut hs: [RI<'a>; 3] = [Recursive::declare(), Recursive::declare(), Recursive::declare()];
+            for (step, which) in order.iter().enumerate() {
+                let w = *which as usize;
+                let bd = triple_body(*which, &c.pads, hs[0].clone().boxed(), hs[1].clone().boxed(), hs[2].clone().boxed());
+                let via_clone = (s >> (8 + step)) & 1 == 1;
+                let r = if via_clone {
+                    let mut h2 = hs[w].clone();
+                    catch_unwind(AssertUnwindSafe(move || h2.define(bd)))
+                } else {
+                    let h = &mut hs[w];
+                    catch_unwind(AssertUnwindSafe(move || h.define(bd)))
+                };
+                if r.is_err() && refused.is_none() {
+                    refused = Some(hook::take_panic());
+                }
+                if step == 0 {
+                    premature = early(&hs[0]);
+                }
+            }
+            let [a, b, cc] = hs;
+            pool.push(H::Ind(a));
+            if (s >> 16) & 1 == 1 {
+                // keep B and C alive until the history is over
+                keep.push(H::Ind(b));
+                keep.push(H::Ind(cc));
+            }
+        }
+        (Tmpl::Nested, form) => {
+            let s = crate::prng::mix64(c.shape_seed ^ 0x4e57);
+            let inner_direct = s & 1 == 0;
+            let pads = c.pads.clone();
+            // Q is built INSIDE P's definition and refers to P
+            let mk_q = move |p: BX<'a>, pads: &[u8]| -> BX<'a> {
+                if inner_direct {
+                    let pads = pads.to_vec();
+                    recursive(move |q| nested_q(&pads, q.boxed(), p)).boxed()
+                } else {
+                    let mut q: RI<'a> = Recursive::declare();
+                    q.define(nested_q(pads, q.clone().boxed(), p));
+                    q.boxed()
+                }
+            };
+            match form {
+                Form::Direct => {
+                    let r: RD<'a> = recursive(move |p| {
+                        let q = mk_q(p.boxed(), &pads);
+                        nested_p(&pads, q)
+                    });
+                    pool.push(H::Dir(r));
+                }
+                Form::Indirect => {
+                    let mut r: RI<'a> = Recursive::declare();
+                    premature = early(&r);
+                    let q = mk_q(r.clone().boxed(), &pads);
+                    let bb = nested_p(&pads, q);
+                    if catch_unwind(AssertUnwindSafe(|| r.define(bb))).is_err() {
+                        refused = Some(hook::take_panic());
+                    }
+                    pool.push(H::Ind(r));
+                }
+            }
         }
         (t, Form::Direct) => {
             let pads = c.pads.clone();
@@ -652,6 +828,7 @@ fn run_history<'a>(c: &LifeCase, input: &'a [u8]) -> History {
         };
         out.push(res);
     }
+    drop(keep);
     History { premature, first_define_refused: refused, results: out }
 }
 
@@ -905,7 +1082,7 @@ pub fn gen_case(seed: u64, idx: u64, tier: &str) -> LifeCase {
     }
     let unroll_max = if thorough { 20_000 } else { 2_000 };
     // drawn last so that every other field of a case stays what it was before this field existed
-    let premature = if (form == Form::Indirect || tmpl == Tmpl::Mutual) && rng.chance(1, 5) { 1 + rng.below(2) as u8 } else { 0 };
+    let premature = if (form == Form::Indirect || tmpl == Tmpl::Mutual || tmpl == Tmpl::Triple) && rng.chance(1, 5) { 1 + rng.below(2) as u8 } else { 0 };
     LifeCase { tmpl, form, pads, stack_kib, depth, shape_seed, variant, ops, unroll_max, premature }
 }
 
